@@ -16,6 +16,7 @@ OrbitTab == [c \in {o[1] : o \in OrbSet} |->
 
 S == INSTANCE QuerySem WITH Canon <- CanonTab, Orbit <- OrbitTab
 G == INSTANCE Geometry WITH Canon <- CanonTab, Orbit <- OrbitTab
+RL == INSTANCE RankLimit
 
 VARIABLES l, cur, done
 vars == <<l, cur, done>>
@@ -52,7 +53,15 @@ CorpusOf == [i \in 1..Len(Trace) |->
                ELSE 0] @@ <<>>
 VerdictAt(i) == LET e == Trace[i]
                     C == Trace[CorpusOf[i]]
-                IN IF e.ev = "search" THEN CheckEvent(e, C, i) ELSE TRUE
+                IN CASE e.ev = "search"  -> CheckEvent(e, C, i)
+                     [] e.ev = "limited" -> ("c21" \in Check =>
+                                               /\ RL!CheckLimited(e, Trace[i - e.back], S!Answer(e.q, C, e.kind, e.shard), i)
+                                               /\ (e.outcome = "ok" => G!CheckRanges(e, C, i)))
+                     [] e.ev = "display" -> ("c22" \in Check =>
+                                               /\ RL!CheckDisplay(e, Trace[i - e.back], i)
+                                               /\ (e.outcome = "ok" => G!CheckGeometry(e, C, i)))
+                     [] e.ev = "rank"    -> ("c29" \in Check => RL!CheckRank(e, C, i))
+                     [] OTHER -> TRUE
 ASSUME \A i \in 1..Len(Trace) : VerdictAt(i)
 
 Done == ~done /\ done' = TRUE /\ PrintT(<<"ACCEPTED", Len(Trace)>>) /\ UNCHANGED <<l, cur>>
